@@ -87,13 +87,13 @@ unsigned MessageBase::extract_trailer(const f8String& from, f8String& chksum)
 }
 
 //-------------------------------------------------------------------------------------------------
-unsigned MessageBase::decode(const f8String& from, unsigned s_offset, unsigned ignore, bool permissive_mode)
+unsigned MessageBase::decode(const f8String& from, unsigned s_offset, unsigned ignore, bool permissive_mode,
+	const FieldTraits *following, const FieldTraits *following1)
 {
-	const unsigned fsize(static_cast<unsigned>(from.size()) - ignore), npos(0xffffffff);
-	unsigned pos(static_cast<unsigned>(_pos.size())), last_valid_pos(npos);
+	const unsigned fsize(static_cast<unsigned>(from.size()) - ignore);
+	unsigned pos(static_cast<unsigned>(_pos.size()));
 	const char *dptr(from.data());
 	char tag[FIX8_MAX_FLD_LENGTH], val[FIX8_MAX_FLD_LENGTH];
-	size_t last_valid_offset(0);
 
 	for (unsigned result; s_offset <= fsize && (result = extract_element(dptr + s_offset, fsize - s_offset, tag, val));)
 	{
@@ -102,13 +102,9 @@ unsigned MessageBase::decode(const f8String& from, unsigned s_offset, unsigned i
 		if (itr == _fp.get_presence().end())
 		{
 unknown_field:
-			if (permissive_mode)
+			// pass an unknown field through, but leave a field of a following section (body, trailer) to that section
+			if (permissive_mode && !(following && following->has(tv)) && !(following1 && following1->has(tv)))
 			{
-				if (last_valid_pos == npos)
-				{
-					last_valid_pos = pos;
-					last_valid_offset = s_offset;
-				}
 				_unknown.append(dptr + s_offset, result);
 				s_offset += result;
 				continue;
@@ -131,7 +127,7 @@ unknown_field:
 			itr->_field_traits.set(FieldTrait::present);
 			// check if repeating group and num elements > 0
 			if (itr->_field_traits.has(FieldTrait::group) && has_group_count(bf))
-				s_offset = decode_group(nullptr, tv, from, s_offset, ignore);
+				s_offset = decode_group(nullptr, tv, from, s_offset, ignore, permissive_mode);
 
 			if (itr->_ftype != FieldTrait::ft_Length || tv == Common_BodyLength) // this type expects next field to be data
 				break;
@@ -167,12 +163,12 @@ unknown_field:
 		throw MissingMandatoryField(ostr.str());
 	}
 
-	return permissive_mode && last_valid_pos == pos ? static_cast<unsigned>(last_valid_offset) : s_offset;
+	return s_offset;
 }
 
 //-------------------------------------------------------------------------------------------------
 unsigned MessageBase::decode_group(GroupBase *grpbase, const unsigned short fnum, const f8String& from,
-	unsigned s_offset, unsigned ignore)
+	unsigned s_offset, unsigned ignore, bool permissive_mode)
 {
 	unsigned result;
 	if (!(grpbase = find_add_group(fnum, grpbase)))
@@ -195,6 +191,12 @@ unsigned MessageBase::decode_group(GroupBase *grpbase, const unsigned short fnum
 			if (pos == 0 && grp->_fp.getPos(tv, itr) != 1)	// first field in group is mandatory
 				throw MissingRepeatingGroupField(tv);
 			const BaseEntry *be(_ctx.find_be(tv));
+			if (!be && permissive_mode && pos)	// a field unknown to the dictionary stays with the element it appears in
+			{
+				grp->_unknown.append(dptr + s_offset, result);
+				s_offset += result;
+				continue;
+			}
 			if (!be || !grp->_fp.has(tv, itr))	// unknown field or field not found in sub-group - end of repeats?
 			{
 				ok = false;
@@ -224,7 +226,7 @@ unsigned MessageBase::decode_group(GroupBase *grpbase, const unsigned short fnum
 			}
 			// nested group (check if not zero elements)
 			if (grp->_fp.is_group(tv, itr) && has_group_count(bf))
-				s_offset = grp->decode_group(grpbase, tv, from, s_offset, ignore);
+				s_offset = grp->decode_group(grpbase, tv, from, s_offset, ignore, permissive_mode);
 		}
 
 		if (s_offset == element_offset) // nothing could be extracted (malformed input): do not add empty elements forever
